@@ -22,3 +22,13 @@ package net
 //@ func handleConn
 //@   props C16 C10
 //@   requires conn != nil && l != nil && stopFlag != nil && typeIs(conn, "*tls.Conn") && dyn(conn, "*tls.Conn") != nil
+//@   on-send inMsgs(v):
+//@     assert [attributed-after-auth] authenticationSucceeded && v.From == from && v.Domain == domain
+
+//@ func readMsg
+//@   props C10 C17
+//@   requires conn != nil
+//@
+//@ func (*Handshake).Read
+//@   props C10 C16
+//@   requires reader != nil
